@@ -124,8 +124,25 @@ pub fn run(cx: &mut Ctx) {
             // one witness value read in two branches that inspect different parts of it; the
             // branch not taken is hidden by pruning, which narrows the type of the shared value
             let d = 1 + rng.below(2);
-            let t = random_ty(&mut rng, d, 8);
-            let ws = vec![("W".to_string(), t.clone()), ("FLAG".to_string(), Ty::Bool)];
+            // half of the time a sum whose left payload has a leading component that only one
+            // branch reads (the shape in which a pruned Left can be mistaken for a Right)
+            let t = if rng.chance(1, 2) {
+                let lead = random_ty(&mut rng, 0, 8);
+                let rest = random_ty(&mut rng, d - 1, 8);
+                Ty::either(Ty::Tuple(vec![lead, rest]), random_ty(&mut rng, 0, 8))
+            } else {
+                random_ty(&mut rng, d, 8)
+            };
+            // the witness expression stands alone or inside a constructor
+            let wrap = rng.below(4);
+            let wt = t.clone();
+            let (t, wexpr) = match wrap {
+                0 => (Ty::opt(wt.clone()), Expr::Some_(Box::new(Expr::Witness("W".into())))),
+                1 => (Ty::either(Ty::U(8), wt.clone()), Expr::Right(Box::new(Expr::Witness("W".into())))),
+                2 => (Ty::Tuple(vec![Ty::U(8), wt.clone()]), Expr::Tuple(vec![Expr::Int("7".into()), Expr::Witness("W".into())])),
+                _ => (wt.clone(), Expr::Witness("W".into())),
+            };
+            let ws = vec![("W".to_string(), wt.clone()), ("FLAG".to_string(), Ty::Bool)];
             let mut g = prober(cx, false);
             g.rng = rng.clone();
             let mut arms = vec![];
@@ -140,7 +157,7 @@ pub fn run(cx: &mut Ctx) {
             let second = arms.pop().unwrap();
             let first = arms.pop().unwrap();
             let stmts = vec![
-                let_("w", t.clone(), Expr::Witness("W".into())),
+                let_("w", t.clone(), wexpr),
                 Stmt::Expr(Expr::Match(
                     Box::new(Expr::Witness("FLAG".into())),
                     Box::new([Arm { pat: MatchPat::False, body: second }, Arm { pat: MatchPat::True, body: first }]),
@@ -148,7 +165,7 @@ pub fn run(cx: &mut Ctx) {
             ];
             let prog = Program { items: vec![main_fn(stmts)], holes };
             let mut primary = WMap::new();
-            primary.insert("W".to_string(), random_val(&t, &mut rng));
+            primary.insert("W".to_string(), random_val(&wt, &mut rng));
             primary.insert("FLAG".to_string(), Val::Bool(rng.chance(1, 4)));
             cx.report.count("shared_witness_programs", 1);
             fixed_primary = Some(primary.clone());
